@@ -467,6 +467,10 @@ static std::vector<Sat> satHistory(vh::Rng& r, int n, int style)
     if (style == 0) s = {0.9 + 0.1 * r.unit(), 0.0, 0.0}, s.so = 1 - s.sw;     // water filled, then oil and gas invade
     for (int i = 0; i < n; ++i) {
         if (style == 0) { const double dsw = 0.01 + 0.05 * r.unit(); s.sw -= dsw; s.sg += 0.5 * dsw * r.unit(); s.sw = std::max(0.0, s.sw); s.so = 1 - s.sw - s.sg; }
+        else if (style == 3) {                                                  // gas comes and goes at a constant water saturation
+            if (i == 0) { s.sw = 0.05 + 0.5 * r.unit(); s.sg = 0.05 * r.unit(); }
+            s.sg += (r.coin(2, 3) ? 1 : -1) * 0.08 * r.unit(); s.sg = std::min(1.0 - s.sw, std::max(0.0, s.sg)); s.so = 1 - s.sw - s.sg;
+        }
         else if (style == 1) { s.sw += (r.unit() - 0.5) * 0.2; s.sg += (r.unit() - 0.5) * 0.2; s.sw = std::min(1.0, std::max(0.0, s.sw)); s.sg = std::min(1.0 - s.sw, std::max(0.0, s.sg)); s.so = 1 - s.sw - s.sg; }
         else s = randomSat(r);
         if (style == 2 && r.coin(1, 10)) s.sw = -0.02;                          // out-of-range saturations are clamped by updateHysteresis
@@ -909,7 +913,7 @@ static std::map<std::string, long> propDecks(vh::Rng& r, vh::PropLog& log, int n
             for (int cell = 0; cell < d.ncell; ++cell) {
                 auto& dp = defaultParams(*b.mgr, cell);
                 const double swl = dp.Swl();
-                std::vector<Sat> h = satHistory(q, 8, q.range(0, 2));
+                std::vector<Sat> h = satHistory(q, 8, q.range(0, 3));
                 double minOw = 2, minGo = 2, minPcOw = 2, minPcGo = 2;
                 auto cl = [](double x) { return std::min(1.0, std::max(0.0, x)); };
                 for (const Sat& s : h) {
@@ -938,6 +942,207 @@ static std::map<std::string, long> propDecks(vh::Rng& r, vh::PropLog& log, int n
                         if (d.ehystrFlag == "PC") chk(before[k].krw == v.krw && before[k].krg == v.krg && (before[k].kro == v.kro || (std::isnan(before[k].kro) && std::isnan(v.kro))), "deck.hyst3.flag-pc", at + " at " + satStr(probes[k]));
                         if (d.ehystrFlag == "KR") chk(before[k].pcow == v.pcow && before[k].pcgo == v.pcgo, "deck.hyst3.flag-kr", at + " at " + satStr(probes[k]));
                     }
+                }
+            }
+        }
+        // ---------------------------------------------------------------- (7) fourth round: only a SUBSET of a cell's end-points differs from the table's
+        // Every array of the deck holds the table's own value except in the cells / keywords chosen here: no end-point, each
+        // single one of the 17 (cycling), a pair, or a few.  Evaluated per cell and curve (krw, krow, pcow, krg, krog, pcgo):
+        // each of the three scaling points of the curve carries the table's value at the table's point (the interior point
+        // under three-point scaling), scaled vertically; a curve none of whose defining end-points differs is the table's curve.
+        // What is expected is computed from the inputs (arrays as the field properties hold them, table end-points) and the
+        // same deck without ENDSCALE.
+        {
+            vh::Rng q(sub ^ 0xC154);
+            GenCfg g; g.endscale = 0; g.hyst = 0; g.allowSmallKr = false; g.strict = q.coin();
+            DeckSpec d0 = makeDeck(q, g);
+            Built b0 = build(d0, deckText(d0));
+            DeckSpec d = d0;
+            d.endscale = true; d.threepoint = q.coin(2, 3);
+            const auto tol = b0.es->runspec().saturationFunctionControls().minimumRelpermMobilityThreshold();
+            const auto rtep = Opm::satfunc::getRawTableEndpoints(b0.es->getTableManager(), b0.es->runspec().phases(), tol);
+            const auto rfun = Opm::satfunc::getRawFunctionValues(b0.es->getTableManager(), b0.es->runspec().phases(), rtep);
+            std::vector<std::array<double, 17>> T;                                   // table end-points per region (pressures in Pa)
+            bool degenerate = false, zeroPcw = false, zeroPcg = false;
+            for (size_t reg = 0; reg < d.regions.size(); ++reg) {
+                T.push_back({rtep.connate.water[reg], rtep.connate.gas[reg], rtep.critical.water[reg], rtep.critical.gas[reg],
+                             rtep.critical.oil_in_water[reg], rtep.critical.oil_in_gas[reg], rtep.maximum.water[reg], rtep.maximum.gas[reg],
+                             rfun.pc.w[reg], rfun.pc.g[reg], rfun.krw.r[reg], rfun.krg.r[reg], rfun.kro.rw[reg], rfun.kro.rg[reg],
+                             rfun.krw.max[reg], rfun.krg.max[reg], rfun.kro.max[reg]});
+                const auto& A = T.back();
+                if (!(A[10] > 0 && A[10] < A[14] && A[11] > 0 && A[11] < A[15] && A[12] > 0 && A[12] < A[16] && A[13] > 0 && A[13] < A[16])) degenerate = true;
+                if (!(A[8] > 0)) zeroPcw = true;
+                if (!(A[9] > 0)) zeroPcg = true;
+            }
+            (void) degenerate;
+            // three-point vertical scaling needs 0 < KRxR < KRx in the table (else the code computes 0 * (x / 0) or switches to
+            // interpolation in the saturation): decided per region; a cell of such a region is skipped for that curve when the
+            // keyword is in the deck, and never gets its own KRxR
+            auto degen = [&](int reg, int kr) { const auto& A = T[reg]; const int kmax = kr == 10 ? 14 : kr == 11 ? 15 : 16; return !(A[kr] > 0 && A[kr] < A[kmax]); };
+            auto allowed = [&](int i) { return !((i == 8 && zeroPcw) || (i == 9 && zeroPcg)); };
+            // ordering of the eight saturation end-points (weak where a table may have two of them in one place)
+            auto consistent = [](const std::array<double, 17>& E) {
+                const double swl = E[0], sgl = E[1], swcr = E[2], sgcr = E[3], sowcr = E[4], sogcr = E[5], swu = E[6], sgu = E[7];
+                return swl >= 0 && swl <= swcr && swcr < 1 - sowcr - sgl && 1 - sowcr - sgl <= swu && swu <= 1 && sowcr >= 0 &&
+                       sgl >= 0 && sgl <= sgcr && sgcr < 1 - swl - sogcr && 1 - swl - sogcr <= sgu && sgu <= 1 - swl && sogcr >= 0;
+            };
+            static long singles = 0;
+            std::vector<std::array<bool, 17>> pert(d.ncell);
+            for (int c = 0; c < 17; ++c) d.maskD[c] = false;
+            for (int cell = 0; cell < d.ncell; ++cell) {
+                const auto& Tr = T[d.satnum[cell] - 1];
+                std::array<double, 17> E = Tr;
+                std::array<bool, 17> want{}; pert[cell].fill(false);
+                const int kind = (k + cell) % 4;
+                int single = -1;
+                if (kind == 1) { single = (singles++) % 17; want[single] = true; }
+                else if (kind == 2) { want[q.range(0, 16)] = true; want[q.range(0, 16)] = true; }
+                else if (kind == 3) for (int i = 0; i < 17; ++i) want[i] = q.coin(1, 5);
+                for (int i = 0; i < 8; ++i) if (want[i]) {
+                    for (int tries = 0; tries < 80; ++tries) {
+                        std::array<double, 17> F = E;
+                        F[i] = q.range(0, 256) / 256.0;
+                        if (std::fabs(F[i] - Tr[i]) >= 1.0 / 64 && consistent(F)) { E = F; pert[cell][i] = true; break; }
+                    }
+                }
+                auto vary = [&](int i, double x) {
+                    if (want[i] && allowed(i) && !(i >= 10 && i <= 13 && degen(d.satnum[cell] - 1, i)) && std::fabs(x - Tr[i]) > 0.02 * std::fabs(Tr[i])) { E[i] = x; pert[cell][i] = true; }
+                };
+                vary(8, Tr[8] * (q.coin() ? 0.3 + 0.6 * q.unit() : 1.2 + 2 * q.unit()));
+                vary(9, Tr[9] * (q.coin() ? 0.3 + 0.6 * q.unit() : 1.2 + 2 * q.unit()));
+                vary(14, E[10] + (1.0 - E[10]) * (0.05 + 0.9 * q.unit()));
+                vary(15, E[11] + (1.0 - E[11]) * (0.05 + 0.9 * q.unit()));
+                vary(16, std::max(E[12], E[13]) + (1.0 - std::max(E[12], E[13])) * (0.05 + 0.9 * q.unit()));
+                vary(10, E[14] * (0.05 + 0.9 * q.unit()));
+                vary(11, E[15] * (0.05 + 0.9 * q.unit()));
+                vary(12, E[16] * (0.05 + 0.9 * q.unit()));
+                vary(13, E[16] * (0.05 + 0.9 * q.unit()));
+                if (single >= 0 && !pert[cell][single]) {                             // the chosen end-point cannot be varied in this cell: take one that can
+                    for (int i = 0; i < 8; ++i) {
+                        const int j = (single + 1 + i) % 8;
+                        for (int tries = 0; tries < 80 && !pert[cell][j]; ++tries) {
+                            std::array<double, 17> F = E;
+                            F[j] = q.range(0, 256) / 256.0;
+                            if (std::fabs(F[j] - Tr[j]) >= 1.0 / 64 && consistent(F)) { E = F; pert[cell][j] = true; }
+                        }
+                        if (pert[cell][j]) break;
+                    }
+                }
+                d.arrD[cell] = E;
+                d.arrD[cell][8] /= 1e5; d.arrD[cell][9] /= 1e5;                       // the deck holds bar
+                for (int i = 0; i < 17; ++i) if (pert[cell][i]) d.maskD[i] = true;
+            }
+            for (int i = 0; i < 17; ++i) if (!d.maskD[i] && allowed(i) && q.coin(1, 5)) d.maskD[i] = true;      // arrays that hold the table's values everywhere
+            Built b = build(d, deckText(d));
+            const bool* M = d.maskD;
+            for (int cell = 0; cell < d.ncell; ++cell) {
+                const auto& Tr = T[d.satnum[cell] - 1];
+                std::array<double, 17> E = Tr;
+                for (int i = 0; i < 17; ++i) if (M[i]) E[i] = b.es->fieldProps().get_copy<double>(EPS_KW[i], false)[cell];
+                const auto& P = pert[cell];
+                std::string what;
+                for (int i = 0; i < 17; ++i) if (P[i]) what += (what.empty() ? "" : "+") + std::string(EPS_KW[i]);
+                if (what.empty()) what = "none";
+                int np = 0; for (int i = 0; i < 17; ++i) np += P[i];
+                ++chk.byKey["deck.subset.cells." + (np == 1 ? what : np == 0 ? std::string("none") : np == 2 ? std::string("pair") : std::string("several"))];
+                const std::string where = tag(cell) + (d.threepoint ? "three-point" : "two-point") + " arrays " + maskStr(M) + " differs: " + what + " ";
+                {   // the cell's end-points as the manager reports them: the array where given, the table's otherwise
+                    const auto info = b.mgr->oilWaterScaledEpsInfoDrainage(cell);
+                    const double got[8] = {info.Swl, info.Sgl, info.Swcr, info.Sgcr, info.Sowcr, info.Sogcr, info.Swu, info.Sgu};
+                    for (int i = 0; i < 8; ++i) {
+                        chk(got[i] == E[i] && (P[i] || got[i] == Tr[i]) && close(got[i], d.arrD[cell][i], 1e-14, 1e-16), "deck.subset.readback", where + EPS_KW[i] + " manager " + num(got[i]) + " expected " + num(E[i]));
+                    }
+                }
+                const double SWL = E[0], SGL = E[1], SWCR = E[2], SGCR = E[3], SOWCR = E[4], SOGCR = E[5], SWU = E[6], SGU = E[7];
+                const double tSWL = Tr[0], tSGL = Tr[1], tSWCR = Tr[2], tSGCR = Tr[3], tSOWCR = Tr[4], tSOGCR = Tr[5], tSWU = Tr[6], tSGU = Tr[7];
+                // one relperm curve: coordinate (Sw at Sg = 0, or Sg at Sw = SWL), its three scaling points in the cell and in the
+                // table, where its maximum is (point 0 or 2), the keywords of its vertical scaling
+                struct Curve { const char* name; bool gas; int val; double p[3], t[3]; int jmax; int kmax, kr; bool dep[17]; };
+                auto val = [](const Vals& v, int which) { return which == 0 ? v.krw : which == 1 ? v.kro : which == 2 ? v.krg : which == 3 ? v.pcow : v.pcgo; };
+                auto at = [&](Manager& m, bool gas, double swl, double x) { return gas ? evaluate(m, cell, {swl, 1 - swl - x, x}) : evaluate(m, cell, {x, 1 - x, 0.0}); };
+                Curve curves[4] = {
+                    {"krw", false, 0, {SWCR, 1 - SOWCR - SGL, SWU}, {tSWCR, 1 - tSOWCR - tSGL, tSWU}, 2, 14, 10, {}},
+                    {"krow", false, 1, {SWL + SGL, SWCR + SGL, 1 - SOWCR}, {tSWL + tSGL, tSWCR + tSGL, 1 - tSOWCR}, 0, 16, 12, {}},
+                    {"krg", true, 2, {SGCR, 1 - SWL - SOGCR, SGU}, {tSGCR, 1 - tSWL - tSOGCR, tSGU}, 2, 15, 11, {}},
+                    {"krog", true, 1, {SGL, SGCR, 1 - SWL - SOGCR}, {tSGL, tSGCR, 1 - tSWL - tSOGCR}, 0, 16, 13, {}},
+                };
+                // which end-points define which curve (outer points always, interior ones under three-point scaling)
+                auto dep = [&](Curve& c, std::initializer_list<int> outer, std::initializer_list<int> inner) {
+                    const bool v3 = M[c.kr];
+                    for (int i : outer) c.dep[i] = true;
+                    if (d.threepoint || v3) for (int i : inner) c.dep[i] = true;
+                    c.dep[c.kmax] = c.dep[c.kr] = true;
+                };
+                dep(curves[0], {2, 6}, {4, 1});
+                dep(curves[1], {0, 1, 4}, {2});
+                dep(curves[2], {0, 3, 7}, {5});
+                dep(curves[3], {0, 1, 5}, {3});
+                // domain of the three-point vertical scaling of a curve: 0 < KRxR < KRx in the table, scaled points strictly ordered
+                // (KRxR and KRx given for one and the same saturation is contradictory input)
+                auto inDomain = [&](const Curve& c) { return !M[c.kr] || (!degen(d.satnum[cell] - 1, c.kr) && c.p[1] - c.p[0] >= 1e-4 && c.p[2] - c.p[1] >= 1e-4); };
+                const bool cornerOk = inDomain(curves[1]) && inDomain(curves[3]);   // at Sw = Swco, Sg = 0 the three-phase value is the mean of the two two-phase maxima
+                for (Curve& c : curves) {
+                    const bool v3 = M[c.kr], v2 = M[c.kmax] || v3;
+                    if (v3 && degen(d.satnum[cell] - 1, c.kr)) { ++chk.byKey[std::string("deck.subset.skipped-degenerate.") + c.name]; continue; }
+                    const bool strictP = c.p[1] - c.p[0] >= 1e-4 && c.p[2] - c.p[1] >= 1e-4, weakT = c.t[0] <= c.t[1] && c.t[1] <= c.t[2];
+                    const bool sameP = c.p[0] == c.t[0] && c.p[1] == c.t[1] && c.p[2] == c.t[2];
+                    const int jzero = 2 - c.jmax;
+                    for (int j = 0; j < 3; ++j) {
+                        if (j == 1 && !((d.threepoint && strictP && weakT) || (!d.threepoint && sameP && strictP))) continue;
+                        if (v3 && !strictP) continue;
+                        // the three-phase oil relperm is the two-phase one away from the corner Sw = Swco, Sg = 0 (and at it, where both are maximal)
+                        if (c.val == 1 && j != c.jmax) {
+                            const double dp = c.gas ? c.p[j] : c.p[j] - SWL, dt = c.gas ? c.t[j] : c.t[j] - tSWL;
+                            if ((dp < 1e-4 && dp != 0) || (dt < 1e-4 && dt != 0)) continue;
+                        }
+                        // at the corner itself the three-phase value is the mean of the two two-phase maxima: both curves must be in
+                        // the domain of their vertical scaling (a table with SWCR = SWL has KRORW = KRO: giving both is contradictory)
+                        if (c.val == 1 && j == c.jmax && (c.gas ? c.p[j] : c.p[j] - SWL) < 1e-4 && !cornerOk) continue;
+                        const double tab = val(at(*b0.mgr, c.gas, tSWL, c.t[j]), c.val);
+                        double want = tab;
+                        if (v2 && !v3) want = tab * (E[c.kmax] / Tr[c.kmax]);
+                        if (v3) want = j == c.jmax ? E[c.kmax] : j == 1 ? E[c.kr] : tab * (E[c.kr] / Tr[c.kr]);
+                        (void) jzero;
+                        const double got = val(at(*b.mgr, c.gas, SWL, c.p[j]), c.val);
+                        chk(std::isfinite(got) && close(got, want, c.val == 1 ? 1e-8 : 1e-9, c.val == 1 ? 1e-11 : 1e-12), std::string("deck.subset.point.") + c.name + "." + "lmu"[j],
+                            where + c.name + "(" + (c.gas ? "Sg=" : "Sw=") + num(c.p[j]) + ") = " + num(got) + ", want " + num(want) + " (table " + num(tab) + " at " + num(c.t[j]) + ")");
+                    }
+                    // identity per curve
+                    bool same = true;
+                    for (int i = 0; i < 17; ++i) if (c.dep[i] && P[i]) same = false;
+                    if (same && inDomain(c)) {
+                        ++chk.byKey[std::string("deck.subset.identity-curves.") + c.name];
+                        for (int t = 0; t <= 32; ++t) {
+                            const double x = c.gas ? tSGU * t / 32.0 : tSWL + (1 - tSWL) * t / 32.0;
+                            if (c.val == 1 && (c.gas ? x : x - tSWL) < 1e-4 && (t > 0 || !cornerOk)) continue;
+                            const double got = val(at(*b.mgr, c.gas, SWL, x), c.val), tab = val(at(*b0.mgr, c.gas, tSWL, x), c.val);
+                            chk(std::isfinite(got) && close(got, tab, c.val == 1 ? 1e-7 : 1e-9, c.val == 1 ? 1e-10 : 1e-12), std::string("deck.subset.identity.") + c.name,
+                                where + c.name + "(" + (c.gas ? "Sg=" : "Sw=") + num(x) + ") = " + num(got) + ", table " + num(tab));
+                        }
+                    }
+                }
+                // capillary pressures: two points each
+                {
+                    const double fw = M[8] && Tr[8] > 0 ? E[8] / Tr[8] : 1.0, fg = M[9] && Tr[9] > 0 ? E[9] / Tr[9] : 1.0;
+                    const double pw[2] = {SWL, SWU}, tw[2] = {tSWL, tSWU}, pg[2] = {SGL, SGU}, tg[2] = {tSGL, tSGU};
+                    for (int j = 0; j < 2; ++j) {
+                        const double gotW = at(*b.mgr, false, SWL, pw[j]).pcow, tabW = at(*b0.mgr, false, tSWL, tw[j]).pcow;
+                        chk(std::isfinite(gotW) && close(gotW, tabW * fw, 1e-9, 1e-6), std::string("deck.subset.point.pcow.") + "lu"[j], where + "pcow(Sw=" + num(pw[j]) + ") = " + num(gotW) + ", want " + num(tabW * fw));
+                        const double gotG = at(*b.mgr, true, SWL, pg[j]).pcgo, tabG = at(*b0.mgr, true, tSWL, tg[j]).pcgo;
+                        chk(std::isfinite(gotG) && close(gotG, tabG * fg, 1e-9, 1e-6), std::string("deck.subset.point.pcgo.") + "lu"[j], where + "pcgo(Sg=" + num(pg[j]) + ") = " + num(gotG) + ", want " + num(tabG * fg));
+                    }
+                    if (!P[0] && !P[6] && !P[8])
+                        for (int t = 0; t <= 32; ++t) {
+                            const double x = t / 32.0;
+                            const double got = at(*b.mgr, false, SWL, x).pcow, tab = at(*b0.mgr, false, tSWL, x).pcow;
+                            chk(std::isfinite(got) && close(got, tab, 1e-9, 1e-6), "deck.subset.identity.pcow", where + "pcow(Sw=" + num(x) + ") = " + num(got) + ", table " + num(tab));
+                        }
+                    if (!P[0] && !P[1] && !P[7] && !P[9])
+                        for (int t = 0; t <= 32; ++t) {
+                            const double x = tSGU * t / 32.0;
+                            const double got = at(*b.mgr, true, SWL, x).pcgo, tab = at(*b0.mgr, true, tSWL, x).pcgo;
+                            chk(std::isfinite(got) && close(got, tab, 1e-9, 1e-6), "deck.subset.identity.pcgo", where + "pcgo(Sg=" + num(x) + ") = " + num(got) + ", table " + num(tab));
+                        }
                 }
             }
         }
